@@ -103,6 +103,12 @@ func (iter *FastIterator) Next() {
 
 	if iter.fastIterator == nil {
 		iter.fastIterator, iter.err = iter.ndb.getFastIterator(iter.start, iter.end, iter.ascending)
+		if iter.err != nil {
+			// there is no storage iterator to step: the iteration ends with the error
+			iter.fastIterator = nil
+			iter.valid = false
+			return
+		}
 		iter.valid = true
 	} else {
 		iter.fastIterator.Next()
